@@ -8,6 +8,7 @@ import Mathlib.Tactic.Linarith
 import Mathlib.Tactic.FieldSimp
 import Mathlib.Tactic.LinearCombination
 import Mathlib.Algebra.Order.Field.Basic
+import Mathlib.Algebra.Order.Ring.Abs
 
 namespace Atomman.C17
 open Atomman
@@ -221,5 +222,380 @@ theorem qtp_zero : ∀ (pairs : List (V3 K × V3 K)) (acc : M3 K), (∀ e ∈ pa
     simp only [List.foldl_cons]
     rw [h e List.mem_cons_self, outer_zero, addM_zeroM]
     exact qtp_zero l acc (fun e' he' => h e' (List.mem_cons_of_mem _ he'))
+
+/-! ### more matrix algebra (right inverse, transposes), list folds -/
+
+section more
+/-- ... and a right inverse. -/
+theorem mul_inv_cancel3 (A : M3 K) (h : M3.det A ≠ 0) : M3.mul A (M3.inv A) = M3.one := by
+  have h' := h
+  simp only [M3.det, V3.dot, V3.cross] at h'
+  have hr := mul_inv_cancel₀ h'
+  ext <;> simp only [M3.mul, M3.vecMul, M3.inv, M3.det, V3.dot, V3.cross, M3.one, div_eq_mul_inv] <;>
+    first | linear_combination hr | ring
+
+theorem vecMul_mul (v : V3 K) (A B : M3 K) : M3.vecMul (M3.vecMul v A) B = M3.vecMul v (M3.mul A B) := by
+  ext <;> simp only [M3.mul, M3.vecMul] <;> ring
+
+theorem vecMul_one (v : V3 K) : M3.vecMul v (M3.one : M3 K) = v := by
+  ext <;> simp [M3.vecMul, M3.one]
+
+theorem det_transpose (A : M3 K) : M3.det A.transpose = M3.det A := by
+  simp only [M3.det, M3.transpose, V3.dot, V3.cross]; ring
+
+theorem subM_self (A : M3 K) : subM A A = zeroM := by
+  ext <;> simp [subM, zeroM, zero3]
+
+theorem foldl_congr_mem {α β : Type} (f g : β → α → β) : ∀ (l : List α) (b : β), (∀ b, ∀ a ∈ l, f b a = g b a) →
+    l.foldl f b = l.foldl g b
+  | [], _, _ => rfl
+  | a :: l, b, h => by
+    simp only [List.foldl_cons, h b a List.mem_cons_self]
+    exact foldl_congr_mem f g l _ (fun b a ha => h b a (List.mem_cons_of_mem _ ha))
+
+theorem foldl_map' {α β γ : Type} (f : β → γ → β) (g : α → γ) : ∀ (l : List α) (b : β),
+    (l.map g).foldl f b = l.foldl (fun b a => f b (g a)) b
+  | [], _ => rfl
+  | a :: l, b => by simp only [List.map_cons, List.foldl_cons]; exact foldl_map' f g l _
+
+/-- `dvect` sees only the difference of its two points. -/
+theorem dv_translate (c : Cell K) (a b t : V3 K) : c.dv (a + t) (b + t) = c.dv a b := by
+  have e : (b + t) - (a + t) = b - a := by
+    ext <;> simp only [sub_x, sub_y, sub_z, add_x, add_y, add_z] <;> ring
+  simp only [Cell.dv, dvect, e]
+
+end more
+
+/-! ### rigid slip: folds of the slip-vector accumulation -/
+
+/-- two-valued displacement field: `uA` on the half `side = true`, `uB` on the other. -/
+def twoValued (side : Nat → Bool) (uA uB : V3 K) (j : Nat) : V3 K := if side j then uA else uB
+
+/-- the slip vector is the sum over neighbours of `(u_i - u_j)` whenever no image flips. -/
+theorem slip_fold (c : Cell K) (pos0 pos1 : Nat → V3 K) (u : Nat → V3 K) (i : Nat) :
+    ∀ (nbrs : List Nat) (acc : V3 K),
+      (∀ j ∈ nbrs, c.dv (pos1 i) (pos1 j) = c.dv (pos0 i) (pos0 j) + (u j - u i)) →
+      nbrs.foldl (slipStep c pos0 pos1 i) acc = nbrs.foldl (fun a j => a + (u i - u j)) acc
+  | [], _, _ => rfl
+  | j :: l, acc, h => by
+    simp only [List.foldl_cons]
+    have : slipStep c pos0 pos1 i acc j = acc + (u i - u j) := by
+      simp only [slipStep, h j List.mem_cons_self]
+      ext <;> simp only [sub_x, sub_y, sub_z, add_x, add_y, add_z] <;> ring
+    rw [this]
+    exact slip_fold c pos0 pos1 u i l _ (fun j' hj' => h j' (List.mem_cons_of_mem _ hj'))
+
+/-- the displacement of the *other* half. -/
+def otherHalf (side : Nat → Bool) (uA uB : V3 K) (i : Nat) : V3 K := if side i then uB else uA
+
+theorem rigid_fold (side : Nat → Bool) (uA uB : V3 K) (i : Nat) :
+    ∀ (nbrs : List Nat) (acc : V3 K),
+      nbrs.foldl (fun a j => a + (twoValued side uA uB i - twoValued side uA uB j)) acc
+        = acc + V3.smul ((nbrs.countP (fun j => side j != side i) : Nat) : K)
+            (twoValued side uA uB i - otherHalf side uA uB i)
+  | [], acc => by
+    ext <;> simp
+  | j :: l, acc => by
+    simp only [List.foldl_cons]
+    rw [rigid_fold side uA uB i l, List.countP_cons]
+    by_cases h : side j = side i
+    · have e : twoValued side uA uB j = twoValued side uA uB i := by simp only [twoValued, h]
+      rw [e]
+      ext <;> simp [h]
+    · have hb : (side j != side i) = true := by simpa using h
+      have e : twoValued side uA uB j = otherHalf side uA uB i := by
+        simp only [twoValued, otherHalf]
+        cases hj : side j <;> cases hi : side i <;> simp_all
+      rw [e]
+      ext <;> simp only [hb, if_true, Nat.cast_add, Nat.cast_one, add_x, add_y, add_z, smul_x, smul_y, smul_z,
+        sub_x, sub_y, sub_z] <;> ring
+
+/-! ### disregistry: `isclose`, `unique`, means and interpolation of constants, `min`/`max` -/
+
+theorem absK_nonneg (x : K) : 0 ≤ absK x := by
+  unfold absK; split <;> linarith
+
+theorem isclose_self (atol rtol a : K) (ha : 0 ≤ atol) (hr : 0 ≤ rtol) : isclose atol rtol a a = true := by
+  have h0 : absK (a - a) = 0 := by simp [absK]
+  have := absK_nonneg a
+  simp only [isclose, h0, decide_eq_true_eq]
+  positivity
+
+theorem dedupSorted_subset : ∀ (l : List K) (x : K), x ∈ dedupSorted l → x ∈ l
+  | [], x, h => by simp [dedupSorted] at h
+  | [a], x, h => by simpa [dedupSorted] using h
+  | a :: b :: rest, x, h => by
+    simp only [dedupSorted] at h
+    split at h
+    · exact List.mem_cons_of_mem _ (dedupSorted_subset (b :: rest) x h)
+    · rcases List.mem_cons.mp h with h | h
+      · rw [h]; exact List.mem_cons_self
+      · exact List.mem_cons_of_mem _ (dedupSorted_subset (b :: rest) x h)
+
+theorem dedupSorted_ne_nil : ∀ (l : List K), l ≠ [] → dedupSorted l ≠ []
+  | [], h => absurd rfl h
+  | [a], _ => by simp [dedupSorted]
+  | a :: b :: rest, _ => by
+    simp only [dedupSorted]
+    split
+    · exact dedupSorted_ne_nil (b :: rest) (by simp)
+    · simp
+
+theorem mem_insertSorted (a x : K) : ∀ (l : List K), x ∈ insertSorted a l ↔ x = a ∨ x ∈ l
+  | [] => by simp [insertSorted]
+  | b :: l => by
+    simp only [insertSorted]
+    split
+    · simp
+    · simp only [List.mem_cons, mem_insertSorted a x l]
+      constructor
+      · rintro (h | h | h)
+        · exact Or.inr (Or.inl h)
+        · exact Or.inl h
+        · exact Or.inr (Or.inr h)
+      · rintro (h | h | h)
+        · exact Or.inr (Or.inl h)
+        · exact Or.inl h
+        · exact Or.inr (Or.inr h)
+
+theorem mem_sortK (x : K) : ∀ (l : List K), x ∈ sortK l ↔ x ∈ l
+  | [] => by simp [sortK]
+  | a :: l => by
+    have := mem_sortK x l
+    simp only [sortK, List.foldr_cons] at this ⊢
+    rw [mem_insertSorted, this, List.mem_cons]
+
+theorem unique_subset (l : List K) : ∀ x ∈ unique l, x ∈ l := fun x hx =>
+  (mem_sortK x l).mp (dedupSorted_subset _ x hx)
+
+theorem unique_ne_nil (l : List K) (h : l ≠ []) : unique l ≠ [] := by
+  apply dedupSorted_ne_nil
+  obtain ⟨a, ha⟩ := List.exists_mem_of_ne_nil l h
+  exact List.ne_nil_of_mem ((mem_sortK a l).mpr ha)
+
+/-- **interpolation of a constant is the constant** (`numpy.interp` with all `fp` equal). -/
+theorem interp_const (c x : K) : ∀ (pts : List (K × K)), pts ≠ [] → (∀ p ∈ pts, p.2 = c) → interp pts x = c
+  | [], h, _ => absurd rfl h
+  | [(x0, f0)], _, h => by simp only [interp]; exact h (x0, f0) List.mem_cons_self
+  | (x0, f0) :: (x1, f1) :: rest, _, h => by
+    have h0 : f0 = c := h (x0, f0) List.mem_cons_self
+    have h1 : f1 = c := h (x1, f1) (List.mem_cons_of_mem _ List.mem_cons_self)
+    simp only [interp]
+    split
+    · split
+      · exact h0
+      · rw [h0, h1]; simp
+    · exact interp_const c x ((x1, f1) :: rest) (by simp) (fun p hp => h p (List.mem_cons_of_mem _ hp))
+
+theorem interpV_const (xs : List K) (hne : xs ≠ []) (u : V3 K) (x : K) :
+    interpV xs (xs.map fun _ => u) x = u := by
+  have key : ∀ c : K, interp (xs.zip (xs.map fun _ => c)) x = c := by
+    intro c
+    apply interp_const
+    · obtain ⟨a, l, rfl⟩ := List.exists_cons_of_ne_nil hne
+      simp
+    · intro p hp
+      have := (List.of_mem_zip hp).2
+      simp only [List.mem_map] at this
+      obtain ⟨_, _, h⟩ := this
+      exact h.symm
+  unfold interpV
+  simp only [List.map_map, Function.comp_def]
+  ext <;> simp only [key]
+
+theorem sumV_fold_const (u : V3 K) : ∀ (l : List (V3 K)) (acc : V3 K), (∀ v ∈ l, v = u) →
+    l.foldl (· + ·) acc = acc + V3.smul ((l.length : Nat) : K) u
+  | [], acc, _ => by ext <;> simp
+  | v :: l, acc, h => by
+    simp only [List.foldl_cons, List.length_cons]
+    rw [sumV_fold_const u l _ (fun w hw => h w (List.mem_cons_of_mem _ hw)), h v List.mem_cons_self]
+    ext <;> simp only [add_x, add_y, add_z, smul_x, smul_y, smul_z, Nat.cast_add, Nat.cast_one] <;> ring
+
+/-- the mean of a non-empty list of equal vectors is that vector. -/
+theorem meanV_const (u : V3 K) (l : List (V3 K)) (hne : l ≠ []) (h : ∀ v ∈ l, v = u) : meanV l = u := by
+  have hn : ((l.length : Nat) : K) ≠ 0 := by
+    have : l.length ≠ 0 := by simpa using hne
+    exact_mod_cast this
+  unfold meanV sumV
+  rw [sumV_fold_const u l zero3 h]
+  ext <;> simp only [add_x, add_y, add_z, smul_x, smul_y, smul_z, zero3_x, zero3_y, zero3_z, zero_add] <;> field_simp
+
+theorem planeMeans_const (atol rtol : K) (ha : 0 ≤ atol) (hr : 0 ≤ rtol) (plane : List (K × V3 K)) (u : V3 K)
+    (hu : ∀ a ∈ plane, a.2 = u) (ux : List K) (hux : ∀ ix ∈ ux, ix ∈ plane.map (·.1)) :
+    planeMeans atol rtol plane ux = ux.map fun _ => u := by
+  unfold planeMeans
+  apply List.map_congr_left
+  intro ix hix
+  apply meanV_const
+  · obtain ⟨a, ha', hax⟩ := List.mem_map.mp (hux ix hix)
+    apply List.ne_nil_of_mem (a := a.2)
+    apply List.mem_map.mpr
+    refine ⟨a, List.mem_filter.mpr ⟨ha', ?_⟩, rfl⟩
+    simp only [hax]
+    exact isclose_self atol rtol ix ha hr
+  · intro v hv
+    obtain ⟨a, ha', rfl⟩ := List.mem_map.mp hv
+    exact hu a (List.mem_filter.mp ha').1
+
+theorem fold_sel_mem (f : K → K → K) (hf : ∀ m x, f m x = m ∨ f m x = x) :
+    ∀ (l : List K) (a : K), l.foldl f a ∈ a :: l
+  | [], a => by simp
+  | x :: l, a => by
+    simp only [List.foldl_cons]
+    have := fold_sel_mem f hf l (f a x)
+    rcases List.mem_cons.mp this with h | h
+    · rw [h]
+      rcases hf a x with h' | h' <;> rw [h'] <;> simp
+    · exact List.mem_cons_of_mem _ (List.mem_cons_of_mem _ h)
+
+theorem minL_mem (l : List K) (m : K) (h : minL l = some m) : m ∈ l := by
+  cases l with
+  | nil => simp [minL] at h
+  | cons a l =>
+    simp only [minL, Option.some.injEq] at h
+    rw [← h]
+    apply fold_sel_mem
+    intro m x; by_cases hx : x < m <;> simp [hx]
+
+theorem maxL_mem (l : List K) (m : K) (h : maxL l = some m) : m ∈ l := by
+  cases l with
+  | nil => simp [maxL] at h
+  | cons a l =>
+    simp only [maxL, Option.some.injEq] at h
+    rw [← h]
+    apply fold_sel_mem
+    intro m x; by_cases hx : m < x <;> simp [hx]
+
+/-! ### `match_pq`: the inner (best match) loop and the conflict loop -/
+
+/-- `ps[k]` is the match the inner loop of `match_pq` selects for `q`: its cosine exceeds `cos θ_max`, strictly
+    exceeds that of every earlier `p` and is not exceeded by a later one. -/
+def IsBest (mag : V3 K → K) (cosMax : K) (ps : List (V3 K)) (q : V3 K) (k : Nat) : Prop :=
+  ∃ pre pk post, ps = pre ++ pk :: post ∧ pre.length = k ∧ cosMax < cosTheta mag q pk ∧
+    (∀ p ∈ pre, cosTheta mag q p < cosTheta mag q pk) ∧ (∀ p ∈ post, cosTheta mag q p ≤ cosTheta mag q pk)
+
+theorem best_prefix (mag : V3 K → K) (q : V3 K) (c : K) :
+    ∀ (pre : List (V3 K)) (st : K × Option Nat × Nat), st.1 < c → (∀ p ∈ pre, cosTheta mag q p < c) →
+      (pre.foldl (bestStep mag q) st).1 < c ∧ (pre.foldl (bestStep mag q) st).2.2 = st.2.2 + pre.length
+  | [], st, h, _ => ⟨h, rfl⟩
+  | p :: l, st, h, hp => by
+    simp only [List.foldl_cons, List.length_cons]
+    have hl := fun p' hp' => hp p' (List.mem_cons_of_mem _ hp')
+    have h1 : (bestStep mag q st p).1 < c := by
+      simp only [bestStep]; split
+      · exact hp p List.mem_cons_self
+      · exact h
+    have h2 : (bestStep mag q st p).2.2 = st.2.2 + 1 := by
+      simp only [bestStep]; split <;> rfl
+    have := best_prefix mag q c l _ h1 hl
+    rw [h2] at this
+    exact ⟨this.1, by rw [this.2]; omega⟩
+
+theorem best_suffix (mag : V3 K → K) (q : V3 K) (c : K) (k : Nat) :
+    ∀ (post : List (V3 K)) (n : Nat), (∀ p ∈ post, cosTheta mag q p ≤ c) →
+      (post.foldl (bestStep mag q) (c, some k, n)).2.1 = some k
+  | [], _, _ => rfl
+  | p :: l, n, hp => by
+    simp only [List.foldl_cons]
+    have : bestStep mag q (c, some k, n) p = (c, some k, n + 1) := by
+      simp only [bestStep]
+      rw [if_neg (not_lt.mpr (hp p List.mem_cons_self))]
+    rw [this]
+    exact best_suffix mag q c k l _ (fun p' hp' => hp p' (List.mem_cons_of_mem _ hp'))
+
+/-- the inner loop returns the best match. -/
+theorem bestP_of_isBest (mag : V3 K → K) (cosMax : K) (ps : List (V3 K)) (q : V3 K) (k : Nat)
+    (h : IsBest mag cosMax ps q k) : bestP mag cosMax q ps = some k := by
+  obtain ⟨pre, pk, post, rfl, hk, hc, hpre, hpost⟩ := h
+  unfold bestP
+  rw [List.foldl_append, List.foldl_cons]
+  obtain ⟨h1, h2⟩ := best_prefix mag q (cosTheta mag q pk) pre (cosMax, none, 0) hc hpre
+  have : bestStep mag q (pre.foldl (bestStep mag q) (cosMax, none, 0)) pk = (cosTheta mag q pk, some k, k + 1) := by
+    simp only [bestStep]
+    rw [if_pos h1, h2]
+    simp [hk]
+  rw [this]
+  exact best_suffix mag q _ k post _ hpost
+
+/-- nothing exceeds `cos θ_max`: the inner loop leaves `qp_pairs[j] = -1`. -/
+theorem bestP_none (mag : V3 K → K) (cosMax : K) (q : V3 K) :
+    ∀ (ps : List (V3 K)) (n : Nat), (∀ p ∈ ps, cosTheta mag q p ≤ cosMax) →
+      (ps.foldl (bestStep mag q) (cosMax, none, n)).2.1 = none
+  | [], _, _ => rfl
+  | p :: l, n, hp => by
+    simp only [List.foldl_cons]
+    have : bestStep mag q (cosMax, none, n) p = (cosMax, none, n + 1) := by
+      simp only [bestStep]
+      rw [if_neg (not_lt.mpr (hp p List.mem_cons_self))]
+    rw [this]
+    exact bestP_none mag cosMax q l _ (fun p' hp' => hp p' (List.mem_cons_of_mem _ hp'))
+
+theorem isBest_get (mag : V3 K → K) (cosMax : K) (ps : List (V3 K)) (q : V3 K) (k : Nat)
+    (h : IsBest mag cosMax ps q k) : ∃ p, ps[k]? = some p ∧ cosMax < cosTheta mag q p := by
+  obtain ⟨pre, pk, post, rfl, hk, hc, _, _⟩ := h
+  exact ⟨pk, by rw [← hk]; simp, hc⟩
+
+/-- the conflict loop is a no-op when no earlier `q` holds the same `p`. -/
+theorem dedupe_noconflict (mag : V3 K → K) (r1 : K) (qj : V3 K) (a : Nat) :
+    ∀ (prev acc : List (V3 K × Option Nat)), (∀ e ∈ prev, e.2 ≠ some a) →
+      prev.foldl (dedupeStep mag r1 qj) (acc, some a) = (acc ++ prev, some a)
+  | [], acc, _ => by simp
+  | e :: l, acc, h => by
+    simp only [List.foldl_cons]
+    have : dedupeStep mag r1 qj (acc, some a) e = (acc ++ [e], some a) := by
+      have hne := h e List.mem_cons_self
+      unfold dedupeStep
+      cases hb : e.2 with
+      | none => simp
+      | some b =>
+        have : a ≠ b := fun hab => hne (by rw [hb, hab])
+        simp [this]
+    rw [this, dedupe_noconflict mag r1 qj a l _ (fun e' he' => h e' (List.mem_cons_of_mem _ he'))]
+    simp
+
+theorem qpPairs_fold (mag : V3 K → K) (cosMax r1 : K) (ps : List (V3 K)) :
+    ∀ (qs : List (V3 K)) (ks : List Nat) (prev : List (V3 K × Option Nat)),
+      qs.length = ks.length →
+      (∀ e ∈ qs.zip ks, IsBest mag cosMax ps e.1 e.2) →
+      ks.Nodup → (∀ k ∈ ks, ∀ e ∈ prev, e.2 ≠ some k) →
+      qs.foldl (pairStep mag cosMax r1 ps) prev = prev ++ (qs.zip ks).map (fun e => (e.1, some e.2))
+  | [], _, prev, _, _, _, _ => by simp
+  | q :: qs, [], _, h, _, _, _ => by simp at h
+  | q :: qs, k :: ks, prev, hlen, hbest, hnd, hprev => by
+    simp only [List.foldl_cons, List.zip_cons_cons, List.map_cons]
+    have hb := bestP_of_isBest mag cosMax ps q k (hbest (q, k) (by simp))
+    have hstep : pairStep mag cosMax r1 ps prev q = prev ++ [(q, some k)] := by
+      simp only [pairStep, hb]
+      rw [dedupe_noconflict mag r1 q k prev [] (hprev k List.mem_cons_self)]
+      simp
+    rw [hstep]
+    have hnd' := List.nodup_cons.mp hnd
+    rw [qpPairs_fold mag cosMax r1 ps qs ks _ (by simpa using hlen)
+      (fun e he => hbest e (by simp [he])) hnd'.2]
+    · simp
+    · intro k' hk' e he
+      rcases List.mem_append.mp he with he | he
+      · exact hprev k' (List.mem_cons_of_mem _ hk') e he
+      · simp only [List.mem_singleton] at he
+        rw [he]
+        simp only [ne_eq, Option.some.injEq]
+        intro h; rw [h] at hnd'; exact hnd'.1 hk'
+
+/-- `QᵀQ` depends on the matched `q` rows only. -/
+def qtqV (qs : List (V3 K)) : M3 K := qs.foldl (fun m q => addM m (outer q q)) zeroM
+
+theorem qtq_eq_qtqV (pairs : List (V3 K × V3 K)) : qtq pairs = qtqV (pairs.map (·.2)) := by
+  unfold qtq qtqV
+  rw [foldl_map']
+
+/-! ### Nye tensor of a vanishing right-hand side -/
+
+theorem solveNormal_zero (pairs : List (V3 K × V3 K)) (h : ∀ e ∈ pairs, e.1 = zero3) :
+    solveNormal pairs = zeroM := by
+  unfold solveNormal qtp
+  rw [qtp_zero pairs zeroM h, mul_zeroM]
+
+theorem nyeOf_zero : nyeOf ((zeroM : M3 K), (zeroM : M3 K), (zeroM : M3 K)) = zeroM := by
+  ext <;> simp [nyeOf, zeroM, zero3, M3.row, V3.get]
 
 end Atomman.C17
